@@ -351,7 +351,14 @@ def explore(chk, cfg, depth, max_states=None, stop_at=None):
 
     def run_layer(hists):
         items = [item_for(cfg, h) for h in hists]
-        res = run_batch("fast", DRIVER, items, env={"VERIF_VTIME": "1"}, chunk=300, timeout=60, max_deaths=8)
+        slow = bool(cfg.get("nprocs") or cfg.get("focus"))     # real children / threads: every step costs real time
+        res = run_batch("fast", DRIVER, items, env={"VERIF_VTIME": "1"}, chunk=60 if slow else 300,
+                        timeout=180 if slow else 60, max_deaths=8)
+        # a chunk that ran out of time on a loaded machine is not a hang of the history the clock stopped at: run that
+        # history again alone, with a generous limit, before it counts
+        for i, (st, text) in enumerate(res):
+            if st == "TIMEOUT":
+                res[i] = run_batch("fast", DRIVER, [items[i]], env={"VERIF_VTIME": "1"}, chunk=1, timeout=600)[0]
         out = []
         for h, (st, text) in zip(hists, res):
             if st == "SKIPPED":
